@@ -167,3 +167,62 @@ theorem posix_injective (a b : List Text) (ha : NamesOk a) (hb : NamesOk b) (h :
     · rw [← splitSlash_posix a ea ha, ← splitSlash_posix b eb hb, h]
 
 end AasVerif.Snippets
+
+namespace AasVerif.Snippets
+
+/-! ### the key language -/
+
+theorem posix_cons_cons (p q : Text) (ps : List Text) : posix (p :: q :: ps) = p ++ 47 :: posix (q :: ps) := rfl
+
+theorem posix_splitSlash (k : Text) : posix (splitSlash k) = k := by
+  induction k with
+  | nil => rfl
+  | cons c cs ih =>
+    unfold splitSlash
+    split
+    · next h =>
+      subst h
+      cases hs : splitSlash cs with
+      | nil => exact absurd hs (splitSlash_ne_nil cs)
+      | cons p ps => rw [posix_cons_cons, ← hs, ih]; rfl
+    · cases hs : splitSlash cs with
+      | nil => exact absurd hs (splitSlash_ne_nil cs)
+      | cons p ps =>
+        rw [hs] at ih
+        cases ps with
+        | nil => simp [posix] at ih ⊢; exact ih
+        | cons q qs =>
+          simp only [posix_cons_cons] at ih ⊢
+          rw [← ih]; rfl
+
+theorem isTail_ne_slash (c : Nat) (h : isTail c = true) : c ≠ 47 := by
+  intro e; subst e; simp [isTail] at h
+
+theorem isHead_isTail (c : Nat) (h : isHead c = true) : isTail c = true := by
+  simp only [isHead, isTail, Bool.or_eq_true, Bool.and_eq_true, decide_eq_true_eq, beq_iff_eq] at h ⊢
+  omega
+
+theorem validSegment_namesOk (s : Text) (h : validSegment s = true) : s ≠ [] ∧ 47 ∉ s := by
+  cases s with
+  | nil => simp [validSegment] at h
+  | cons c cs =>
+    simp only [validSegment, Bool.and_eq_true, List.all_eq_true] at h
+    refine ⟨by simp, ?_⟩
+    intro hm
+    rcases List.mem_cons.mp hm with e | hm
+    · exact isTail_ne_slash c (isHead_isTail c h.1) e.symm
+    · exact isTail_ne_slash 47 (h.2 47 hm) rfl
+
+/-- `validKey` accepts exactly the language of `SEG(/SEG)*` with `SEG = [a-zA-Z_][a-zA-Z_0-9.]*`:
+the `/`-joins of one or more valid segments. -/
+theorem validKey_iff (k : Text) :
+    validKey k = true ↔ ∃ segs, segs ≠ [] ∧ posix segs = k ∧ ∀ s ∈ segs, validSegment s = true := by
+  constructor
+  · intro h
+    exact ⟨splitSlash k, splitSlash_ne_nil k, posix_splitSlash k, by simpa [validKey] using h⟩
+  · rintro ⟨segs, hne, rfl, hv⟩
+    unfold validKey
+    rw [splitSlash_posix segs hne (fun n hn => validSegment_namesOk n (hv n hn))]
+    simpa using hv
+
+end AasVerif.Snippets
